@@ -238,9 +238,10 @@ func EvalEx(e *Ex, pts []SubPoint, fields map[string]*Ex) (float64, bool) {
 
 // RefRow is one expected (or observed) flat row.
 type RefRow struct {
-	TS   int64              `json:"ts"`
-	Key  string             `json:"key"`
-	Vals map[string]float64 `json:"vals"`
+	TS     int64                  `json:"ts"`
+	Key    string                 `json:"key"`
+	Vals   map[string]float64     `json:"vals"`
+	KeyMap map[string]interface{} `json:"-"` // decoded key of an observed row
 }
 
 func (r RefRow) String() string {
